@@ -5,7 +5,7 @@ changed sources on a scratch copy, and store everything under /verif/seeded/<ID>
 import json, os, shutil, subprocess, sys, tempfile
 pid = sys.argv[1]
 checks = sys.argv[2:] or [pid]
-rnd = 7 if "--round7" in sys.argv else 6 if "--round6" in sys.argv else 5 if "--round5" in sys.argv else 4 if "--round4" in sys.argv else (3 if "--round3" in sys.argv else (2 if "--round2" in sys.argv else 1))
+rnd = 8 if "--round8" in sys.argv else 7 if "--round7" in sys.argv else 6 if "--round6" in sys.argv else 5 if "--round5" in sys.argv else 4 if "--round4" in sys.argv else (3 if "--round3" in sys.argv else (2 if "--round2" in sys.argv else 1))
 src = f"/tmp/wt{rnd}_{pid}/seeded" if rnd > 1 else f"/tmp/wt_{pid}/seeded"
 dst = f"/verif/seeded/{pid}_{rnd}" if rnd > 1 else f"/verif/seeded/{pid}"
 os.makedirs(dst, exist_ok=True)
@@ -17,7 +17,7 @@ for f in ("patch.diff", "demo.py", "meta.json"):
     if os.path.exists(os.path.join(src, f)):
         shutil.copy(os.path.join(src, f), os.path.join(dst, f))
 # the demonstration must not depend on the worktree path
-demo = open(os.path.join(dst, "demo.py")).read().replace(f"/tmp/wt7_{pid}", "${TREE}").replace(f"/tmp/wt6_{pid}", "${TREE}").replace(f"/tmp/wt5_{pid}", "${TREE}").replace(f"/tmp/wt4_{pid}", "${TREE}").replace(f"/tmp/wt3_{pid}", "${TREE}").replace(f"/tmp/wt2_{pid}", "${TREE}").replace(f"/tmp/wt_{pid}", "${TREE}")
+demo = open(os.path.join(dst, "demo.py")).read().replace(f"/tmp/wt8_{pid}", "${TREE}").replace(f"/tmp/wt7_{pid}", "${TREE}").replace(f"/tmp/wt6_{pid}", "${TREE}").replace(f"/tmp/wt5_{pid}", "${TREE}").replace(f"/tmp/wt4_{pid}", "${TREE}").replace(f"/tmp/wt3_{pid}", "${TREE}").replace(f"/tmp/wt2_{pid}", "${TREE}").replace(f"/tmp/wt_{pid}", "${TREE}")
 open(os.path.join(dst, "demo.py"), "w").write(demo)
 meta = json.load(open(os.path.join(dst, "meta.json"))) if os.path.exists(os.path.join(dst, "meta.json")) else {"property": pid}
 if keep:
